@@ -19,7 +19,9 @@ Reads the CURRENT `gemclus/data/synthetic_data.py` with `ast` (gemclus is never 
   every function         RNG primitives called and on which object (the checked `generator`, never `np.random.*`)
 
 Numbers are exact: decimal literals become rationals `(num, den)`, `np.sqrt(3)` is carried symbolically as
-`a + b*sqrt(3)` with rational a, b.  Calls of pure top-level helper functions of the module are inlined
+`a + b*sqrt(3)` with rational a, b.  Reshapes of a symbolic value are transparent (`.reshape`, `.ravel`, … and the
+subscripts made of full slices and `np.newaxis` only: the formula tokens speak about entries, the differential check about
+shapes).  Calls of pure top-level helper functions of the module are inlined
 (`Evaluator.inline`).  Anything outside the expected statement skeleton raises TranslationFailure
 (the tie is then broken and the check runs its failing-input search).
 """
@@ -297,9 +299,24 @@ class Evaluator:
                 return Scaled(r, l.s)
         return Sym(f"{op}({describe(l)},{describe(r)})")
 
+    def shape_only_index(self, sl):
+        """`[:, np.newaxis]`, `[np.newaxis, :]`, `[:, None]`, …: nothing but full slices and new axes — the same entries in the
+        same order under another shape, like `.reshape(…)` (SHAPE_ONLY_METHODS)"""
+        def full(x):
+            return isinstance(x, ast.Slice) and x.lower is None and x.upper is None and x.step is None
+
+        def new(x):
+            return (isinstance(x, ast.Constant) and x.value is None) or \
+                (isinstance(x, ast.Attribute) and x.attr == "newaxis" and isinstance(x.value, ast.Name)
+                 and x.value.id in ("np", "numpy") and x.value.id not in self.env)
+        idx = list(sl.elts) if isinstance(sl, ast.Tuple) else [sl]
+        return bool(idx) and all(full(x) or new(x) for x in idx) and any(new(x) for x in idx)
+
     def subscript(self, node):
         v = self.ev(node.value)
         sl = node.slice
+        if isinstance(v, Sym) and self.shape_only_index(sl):
+            return v
         if isinstance(v, (np.ndarray, Scaled, list)):
             base = v.arr if isinstance(v, Scaled) else v
             try:
@@ -446,6 +463,8 @@ class Evaluator:
                     return Q3(Fraction(isqrt(n_), isqrt(d_)))
                 raise TranslationFailure(f"sqrt of constant {v.a} unsupported")
             return Sym(f"sqrt({describe(v)})")
+        if name in ("matmul", "dot") and len(args) == 2 and not kw and all(isinstance(a, np.ndarray) for a in args):
+            return np.dot(args[0], args[1])          # constants: exact arithmetic in Q(sqrt 3), as for `@`
         if name in SHAPE_ONLY_FUNCS and len(args) == 1:
             return args[0]
         extra = "".join(f",{k}={describe(v)}" for k, v in sorted(kw.items()))
@@ -489,6 +508,20 @@ class Evaluator:
             raise TranslationFailure(f"{self.fn.name}: unsupported augmented assignment")
         if isinstance(st, ast.Return):
             self.ret = self.ev(st.value)
+            return
+        if isinstance(st, ast.FunctionDef) and self.depth == 0:
+            # a local helper function: from here on a call `name(…)` runs its body — inlined like a top-level helper, on the
+            # argument values only (a body that reads a variable of the enclosing function is refused: unknown name)
+            from .geminis import _walk_scope
+            bound = [n.id for n in _walk_scope(self.fn.body) if isinstance(n, ast.Name) and isinstance(n.ctx, (ast.Store, ast.Del))]
+            bound += [n.name for n in _walk_scope(self.fn.body) if isinstance(n, (ast.FunctionDef, ast.AsyncFunctionDef, ast.ClassDef))]
+            bound += [a.arg for a in self.fn.args.args]
+            declared = any(isinstance(n, (ast.Global, ast.Nonlocal)) for n in ast.walk(self.fn))
+            if st.decorator_list or bound.count(st.name) != 1 or st.name in self.env or declared \
+                    or st.name in ("np", "numpy", "math", "block_diag", "check_random_state", "draw_gmm", "multivariate_student_t"):
+                raise TranslationFailure(f"{self.fn.name}: unsupported local function {st.name}")
+            self.helpers = dict(self.helpers)
+            self.helpers[st.name] = st
             return
         raise TranslationFailure(f"{self.fn.name}: unsupported statement {type(st).__name__}")
 
@@ -1148,7 +1181,12 @@ def celeux_one_unit(tree):
         raise TranslationFailure("celeux_one: noise is not generator.normal(size=...) with default loc/scale")
     out["noise_size"] = describe(nz["kw"]["size"])
     ret = describe(ev.ret)
-    if ret != "[concatenate([draw_gmm0.0,rng1],axis=1),draw_gmm0.1]":
+    # `np.hstack([A, B])` = `np.concatenate([A, B], axis=1)` for 2-D blocks: draw_gmm's X is 2-D (draw_gmm_unit accepts no other
+    # selection), the noise is 2-D when its size is a pair
+    ok = ["[concatenate([draw_gmm0.0,rng1],axis=1),draw_gmm0.1]"]
+    if isinstance(nz["kw"]["size"], list) and len(nz["kw"]["size"]) == 2:
+        ok.append("[hstack([draw_gmm0.0,rng1]),draw_gmm0.1]")
+    if ret not in ok:
         raise TranslationFailure(f"celeux_one: return expression `{ret}`")
     out["columns"] = ["good", "noise"]
     out["global_rng"] = ev.global_rng or any(c["on"] not in ("generator", "sibling") for c in ev.calls)
@@ -1190,8 +1228,19 @@ def celeux_two_unit(tree):
     for st in fn.body:
         if isinstance(st, ast.Assign) and isinstance(st.targets[0], ast.Name) and st.targets[0].id == aff[0]:
             e = st.value
-            off_node = e.left.left
-            b_node = e.left.right.right
+            # offsets + <good @ b | np.matmul(good, b) | np.dot(good, b)> + noise
+            if not (isinstance(e, ast.BinOp) and isinstance(e.op, ast.Add) and isinstance(e.left, ast.BinOp)
+                    and isinstance(e.left.op, ast.Add)):
+                raise TranslationFailure("celeux_two: the affine expression is not written offsets + product + noise")
+            off_node, prod = e.left.left, e.left.right
+            if isinstance(prod, ast.BinOp) and isinstance(prod.op, ast.MatMult):
+                b_node = prod.right
+            elif isinstance(prod, ast.Call) and isinstance(prod.func, ast.Attribute) and prod.func.attr in ("matmul", "dot") \
+                    and isinstance(prod.func.value, ast.Name) and prod.func.value.id in ("np", "numpy") and len(prod.args) == 2 \
+                    and not prod.keywords:
+                b_node = prod.args[1]
+            else:
+                raise TranslationFailure("celeux_two: the product of the affine expression is neither `@` nor np.matmul / np.dot")
             out["offsets"] = list(ev.ev(off_node))
             b = ev.ev(b_node)
             if not (isinstance(b, np.ndarray) and b.ndim == 2):
@@ -1199,8 +1248,10 @@ def celeux_two_unit(tree):
             out["b"] = [list(r) for r in b]
     out["formula"] = "add(add(offsets,matmul(good,b)),noise)"
     ret = describe(ev.ret)
-    want = "[concatenate([draw_gmm0.0,concatenate([" + aff[1] + ",rng2],axis=1)],axis=1),draw_gmm0.1]"
-    if ret != want:
+    # joining [good | X3_11 | X12_14] along the columns: nested or in one call (concatenation is associative, no arithmetic)
+    want = ["[concatenate([draw_gmm0.0,concatenate([" + aff[1] + ",rng2],axis=1)],axis=1),draw_gmm0.1]",
+            "[concatenate([draw_gmm0.0," + aff[1] + ",rng2],axis=1),draw_gmm0.1]"]
+    if ret not in want:
         raise TranslationFailure(f"celeux_two: return expression `{ret[:120]}...`")
     out["columns"] = ["good", "X3_11", "X12_14"]
     out["global_rng"] = ev.global_rng or any(c["on"] not in ("generator", "sibling") for c in ev.calls)
